@@ -13,6 +13,25 @@ TRUST = ["warm-up signals that are not public (EDDM's error count, ADWIN's width
          "MD3 is exercised with a deterministic threshold classifier (its protocol is C19's subject)"]
 
 
+# minimised past misses (DESIGN §11.7): (config, history) per detector family, replayed on every run
+CORPUS = {
+    # a known target with an early downward level shift: an alarm inside the burn-in is only possible
+    # when a direction-specific branch loses its `since > burn_in` guard
+    "CUSUM": [
+        (dict(target=0.0, sd_hat=1.0, burn_in=30, delta=0.25, threshold=5.0, direction="negative"),
+         [0.125, -0.25] * 2 + [-3.0 - (i % 4) / 8.0 for i in range(120)]),
+        (dict(target=0.0, sd_hat=1.0, burn_in=30, delta=0.25, threshold=5.0, direction="positive"),
+         [0.125, -0.25] * 2 + [3.0 + (i % 4) / 8.0 for i in range(120)]),
+        (dict(target=0.0, sd_hat=1.0, burn_in=30, delta=0.25, threshold=5.0, direction=None),
+         [0.125, -0.25] * 2 + [-3.0 - (i % 4) / 8.0 for i in range(120)]),
+    ],
+    "PageHinkley": [
+        (dict(delta=0.01, threshold=1.0, burn_in=30, direction="negative"), [0.0, 1.0] * 2 + [-4.0 - (i % 4) / 8.0 for i in range(120)]),
+        (dict(delta=0.01, threshold=1.0, burn_in=30, direction="positive"), [0.0, 1.0] * 2 + [4.0 + (i % 4) / 8.0 for i in range(120)]),
+    ],
+}
+
+
 def md3_trace(rng, n):
     """MD3 with a deterministic classifier: returns (cfgdesc, rows)"""
     import pandas as pd
@@ -69,8 +88,9 @@ def run(ctx):
     lines, meta = [], []   # meta[i] = None | (case_idx, step)
     cases = []
     for fam in zoo.FAMILIES:
-        for k in range(per):
-            crng = np.random.default_rng([ctx.seed, core.shash(fam.name), k])
+        corpus = CORPUS.get(fam.name, [])
+        for k in range(-len(corpus), per):
+            crng = np.random.default_rng([ctx.seed, core.shash(fam.name), abs(k)])
             cfg = fam.config(crng)
             if fam.kind == "stream":
                 n = int(crng.choice([300, 800, 1500])) if fam.name != "PCACD" else int(crng.choice([400, 900]))
@@ -79,6 +99,10 @@ def run(ctx):
             else:
                 n = int(crng.choice([10, 20, 35]))
             hist = fam.history(crng, cfg, n)
+            if k < 0:      # corpus cases (minimised past misses) run first
+                cfg, hist = corpus[-k - 1]
+                cfg = dict(cfg)
+                ctx.count(f"{fam.name}:corpus-cases")
             det = fam.make(cfg)
             no_setref = fam.name == "KdqTreeBatch" and bool(crng.integers(0, 2))
             items = hist[1:] if (fam.kind == "batch" and no_setref) else (fam.start(det, cfg, hist) or hist)
@@ -165,6 +189,4 @@ def run(ctx):
 
 
 def replay(ctx, path):
-    import json
-    print(open(path).read())
-    return 0
+    return core.generic_replay(ctx, path, run)
